@@ -1442,9 +1442,21 @@ impl Core {
 	}
 }
 
-#[derive(Clone)]
 pub struct Tree {
 	pub(crate) core: Arc<Core>,
+	/// Number of live `Tree` handles that share `core`. The store is closed
+	/// (and its directory lock released) when the last one is dropped.
+	handles: Arc<std::sync::atomic::AtomicUsize>,
+}
+
+impl Clone for Tree {
+	fn clone(&self) -> Self {
+		self.handles.fetch_add(1, Ordering::SeqCst);
+		Self {
+			core: Arc::clone(&self.core),
+			handles: Arc::clone(&self.handles),
+		}
+	}
 }
 
 impl Tree {
@@ -1467,6 +1479,7 @@ impl Tree {
 
 		Ok(Self {
 			core: Arc::new(core),
+			handles: Arc::new(std::sync::atomic::AtomicUsize::new(1)),
 		})
 	}
 
@@ -1704,6 +1717,11 @@ impl Tree {
 
 impl Drop for Tree {
 	fn drop(&mut self) {
+		// Other handles to the same store are still alive: closing now would
+		// release the directory lock under them.
+		if self.handles.fetch_sub(1, Ordering::SeqCst) != 1 {
+			return;
+		}
 		#[cfg(not(target_arch = "wasm32"))]
 		{
 			// Native environment - use tokio
